@@ -26,7 +26,8 @@ def gen(rng, i):
         # a blocking throttle keeps the gate while it waits; keep the queue short so shutdown can get through
         subs = subs[:2]
     return {"base": rng.choice(["sync", "pool", "pool"]), "workers": rng.choice([1, 2]), "layers": layers, "subs": subs,
-            "shutdown": {"at": at, "wait": rng.random() < 0.7, "repeat": rng.choice([1, 1, 2, 3])},
+            "shutdown": {"at": at, "wait": rng.random() < 0.7, "repeat": rng.choice([1, 1, 2, 3]),
+                         "threads": rng.choice([1, 1, 2, 3])},
             "horizon": 40000}
 
 
